@@ -1,3 +1,495 @@
+/-
+  C08 — property theorems: the torch facade agrees with numpy's ufunc semantics on integer
+  tensors of every rank, hence numeric programs denote the same value and kind under both
+  providers; every IR the expression compiler emits is accepted by both code generators.
+
+  Every agreement theorem takes `h : Agree T NP` — "the abstract tensor library T computes,
+  primitive by primitive, what the reference library NP does" — as a HYPOTHESIS (validated
+  empirically on every run by the micro-correspondence of vlib/c08.py against real torch and
+  real numpy); nothing here is an axiom.
+-/
 import Klong.Model.C08
+import Klong.Generated.C08Tables
 namespace Klong.C08
+
+/-! ## helper lemmas -/
+
+theorem NP_ew (op : EOp) (a b : Flat) : NP.ew op a b = ewWith op.ap a b := rfl
+theorem NP_pow (a b : Flat) : NP.pow a b = ewWith (fun x y => x ^ y.toNat) a b := rfl
+theorem NP_toInt (a : Flat) : NP.toInt a = a := rfl
+theorem NP_floorF32 (a : Flat) : NP.floorF32 a = ⟨a.shape, a.data.map f32round⟩ := rfl
+theorem NP_sum0 (R : Rows) :
+    NP.sum0 R = ⟨R.inner, foldRows .add (List.replicate (prodN R.inner) 0) R.rows⟩ := rfl
+theorem NP_prod0 (R : Rows) :
+    NP.prod0 R = ⟨R.inner, foldRows .mul (List.replicate (prodN R.inner) 1) R.rows⟩ := rfl
+theorem NP_sumAll (R : Rows) : NP.sumAll R = .scalar (R.rows.flatten.foldl (· + ·) 0) := rfl
+theorem NP_amin (R : Rows) : NP.amin R = (minList R.rows.flatten).map Flat.scalar := rfl
+theorem NP_amax (R : Rows) : NP.amax R = (maxList R.rows.flatten).map Flat.scalar := rfl
+theorem NP_row (R : Rows) (i : Nat) : NP.row R i = R.rows[i]?.map (fun r => ⟨R.inner, r⟩) := rfl
+theorem NP_tail (R : Rows) : NP.tail R = ⟨R.inner, R.rows.tail⟩ := rfl
+theorem NP_stack (ts : List Flat) : NP.stack ts = stackRows ts := rfl
+theorem NP_cumsum0_nil (inner : List Nat) : NP.cumsum0 ⟨inner, []⟩ = ⟨inner, []⟩ := rfl
+theorem NP_cumsum0_cons (inner : List Nat) (r : List Int) (rs : List (List Int)) :
+    NP.cumsum0 ⟨inner, r :: rs⟩ = ⟨inner, scanRows .add r rs⟩ := rfl
+theorem NP_cumprod0_nil (inner : List Nat) : NP.cumprod0 ⟨inner, []⟩ = ⟨inner, []⟩ := rfl
+theorem NP_cumprod0_cons (inner : List Nat) (r : List Int) (rs : List (List Int)) :
+    NP.cumprod0 ⟨inner, r :: rs⟩ = ⟨inner, scanRows .mul r rs⟩ := rfl
+
+theorem zipWith_sub_add (r acc x : List Int) :
+    List.zipWith EOp.sub.ap r (List.zipWith EOp.add.ap acc x)
+      = List.zipWith EOp.sub.ap (List.zipWith EOp.sub.ap r acc) x := by
+  induction r generalizing acc x with
+  | nil => simp
+  | cons a r ih =>
+    cases acc with
+    | nil => simp
+    | cons b acc =>
+      cases x with
+      | nil => simp
+      | cons c x => simp [EOp.ap, ih]; omega
+
+/-- subtracting a sum is folding subtraction: `r − (acc + x1 + … + xn) = ((r − acc) − x1) − … − xn` -/
+theorem sub_foldAdd (rs : List (List Int)) (acc r : List Int) :
+    vop .sub r (foldRows .add acc rs) = foldRows .sub (vop .sub r acc) rs := by
+  induction rs generalizing acc with
+  | nil => rfl
+  | cons x rs ih =>
+    simp only [foldRows, List.foldl_cons] at ih ⊢
+    rw [ih (vop .add acc x)]
+    simp only [vop, zipWith_sub_add]
+
+theorem zipWith_sub_zeros (r : List Int) : List.zipWith EOp.sub.ap r (List.replicate r.length 0) = r := by
+  induction r with
+  | nil => rfl
+  | cons a r ih => simp [List.replicate_succ, EOp.ap, ih]
+
+theorem wf_head {inner : List Nat} {r : List Int} {rs : List (List Int)}
+    (hw : Rows.wf ⟨inner, r :: rs⟩ = true) : r.length = prodN inner := by
+  simp [Rows.wf] at hw
+  exact hw.1
+
+theorem stackRows_map (inner : List Nat) (l : List (List Int)) (hl : l ≠ []) :
+    stackRows (l.map (fun d => (⟨inner, d⟩ : Flat))) = some ⟨inner, l⟩ := by
+  cases l with
+  | nil => exact absurd rfl hl
+  | cons d ds => simp [stackRows, List.all_map, Function.comp_def]
+
+theorem scanRows_ne_nil (op : EOp) (acc : List Int) (rs : List (List Int)) : scanRows op acc rs ≠ [] := by
+  cases rs <;> simp [scanRows]
+
+/-- the Python accumulate loop over the rows from index `i` on is the running fold -/
+theorem accLoop_scan (op : EOp) (R : Rows) (rest : List (List Int)) :
+    ∀ (i : Nat) (acc : List Int), R.rows.drop i = rest →
+      accLoop NP op R rest.length i ⟨R.inner, acc⟩
+        = some ((scanRows op acc rest).map (fun d => (⟨R.inner, d⟩ : Flat))) := by
+  induction rest with
+  | nil => intro i acc _; simp [accLoop, scanRows]
+  | cons x rest ih =>
+    intro i acc hd
+    have hi : R.rows[i]? = some x := by
+      have := congrArg List.head? hd
+      simpa [List.head?_drop] using this
+    have hd' : R.rows.drop (i + 1) = rest := by
+      have := congrArg List.tail hd
+      simpa [List.tail_drop] using this
+    have hew : NP.ew op ⟨R.inner, acc⟩ ⟨R.inner, x⟩ = some ⟨R.inner, vop op acc x⟩ := by
+      simp [NP_ew, ewWith, vop]
+    simp only [List.length_cons, accLoop, NP_row, hi, Option.map_some, Option.bind_some, hew,
+      ih (i + 1) _ hd', scanRows, List.map_cons]
+
+/-! ## the facade agrees with numpy's ufunc semantics -/
+
+/-- the hypothesis of the theorems below is satisfiable (non-vacuity) -/
+theorem agree_refl : Agree NP NP := by
+  constructor <;> intros <;> rfl
+
+/-- TorchUfunc.__call__, minimum/maximum, less/greater and safe_equal: every operand mix
+    (tensor/tensor, tensor/Python scalar, two Python scalars) ends in the same element-wise
+    computation numpy performs -/
+theorem facade_ufunc_agrees {T : Lib} (h : Agree T NP) (op : EOp) (a b : Arg) :
+    facadeUfunc T op a b = npUfunc op a b := by
+  cases op <;> cases a <;> cases b <;>
+    simp [facadeUfunc, npUfunc, h.ew, Arg.lift, NP_ew, ewWith, Flat.scalar, EOp.ap]
+
+example : facadeUfunc NP .max (.py 3) (.tn ⟨[3], [1, 5, 2]⟩) = some ⟨[3], [3, 5, 3]⟩ := by decide
+
+/-- TorchUfunc.reduce after the repair (`axis=0`; subtract as `a[0] − sum(a[1:], dim=0)`)
+    is numpy's ufunc.reduce along axis 0 on every well-formed integer tensor of rank ≥ 1 -/
+theorem facade_reduce_agrees {T : Lib} (h : Agree T NP) (op : AOp) (R : Rows) (hw : R.wf = true) :
+    facadeReduce T op R = npReduce op R := by
+  cases op with
+  | add => simp [facadeReduce, npReduce, h.sum0, NP_sum0]
+  | mul => simp [facadeReduce, npReduce, h.prod0, NP_prod0]
+  | min => simp [facadeReduce, npReduce, h.amin, NP_amin]
+  | max => simp [facadeReduce, npReduce, h.amax, NP_amax]
+  | div => rfl
+  | sub =>
+    obtain ⟨inner, rows⟩ := R
+    cases rows with
+    | nil => simp [facadeReduce, npReduce, h.row, NP_row]
+    | cons r rs =>
+      have hl := wf_head hw
+      simp only [facadeReduce, npReduce, h.row, h.ew, h.sum0, h.tail, NP_row, NP_ew, NP_sum0, NP_tail,
+        List.getElem?_cons_zero, Option.map_some, Option.bind_some, List.tail_cons, ewWith, if_true]
+      have := sub_foldAdd rs (List.replicate (prodN inner) 0) r
+      simp only [vop] at this
+      rw [this, ← hl, zipWith_sub_zeros]
+
+example : facadeReduce NP .sub ⟨[2], [[1, 2], [3, 4]]⟩ = some ⟨[2], [-2, -2]⟩ := by decide
+example : facadeReduce NP .add ⟨[2], [[1, 2], [3, 4]]⟩ = some ⟨[2], [4, 6]⟩ := by decide
+
+/-- TorchUfunc.accumulate: cumsum / cumprod and the `cumulative_subtract` loop followed by
+    torch.stack are numpy's ufunc.accumulate along axis 0 -/
+theorem facade_accumulate_agrees {T : Lib} (h : Agree T NP) (op : AOp) (R : Rows)
+    (hop : op = .add ∨ op = .sub ∨ op = .mul) (hne : R.rows ≠ []) :
+    facadeAccumulate T op R = npAccumulate op R := by
+  obtain ⟨inner, rows⟩ := R
+  rcases hop with rfl | rfl | rfl
+  · cases rows <;>
+      simp [facadeAccumulate, npAccumulate, AOp.arith, h.cumsum0, NP_cumsum0_nil, NP_cumsum0_cons]
+  · have hT : accLoop T = accLoop NP := by
+      funext op R fuel
+      induction fuel with
+      | zero => funext i last; simp [accLoop]
+      | succ n ih => funext i last; simp [accLoop, h.row, h.ew, ih]
+    cases rows with
+    | nil => exact absurd rfl hne
+    | cons r rs =>
+      have hs : T.stack = NP.stack := funext h.stack
+      have := accLoop_scan .sub ⟨inner, r :: rs⟩ rs 1 r (by simp)
+      simp only [facadeAccumulate, npAccumulate, AOp.arith, h.row, hT, hs, NP_row, NP_stack,
+        List.getElem?_cons_zero, Option.map_some, Option.bind_some, List.length_cons,
+        Nat.add_sub_cancel, this, stackRows_map inner _ (scanRows_ne_nil .sub r rs)]
+  · cases rows <;>
+      simp [facadeAccumulate, npAccumulate, AOp.arith, h.cumprod0, NP_cumprod0_nil, NP_cumprod0_cons]
+
+example : facadeAccumulate NP .sub ⟨[2], [[1, 2], [3, 4], [10, 20]]⟩
+    = some ⟨[2], [[1, 2], [-2, -2], [-12, -22]]⟩ := by decide
+
+/-- floor_to_int after the repair returns an integer tensor as it is, like numpy's -/
+theorem floor_agrees {T : Lib} (h : Agree T NP) (a : Arg) : floorToInt T a = npFloor a := by
+  simp [floorToInt, npFloor, h.toInt, NP_toInt]
+
+example : floorToInt NP (.py 16777217) = some (.scalar 16777217) := by decide
+
+/-- TorchBackendProvider.power on non-negative integer exponents: Tensor.pow for a tensor
+    base, numpy.power for a Python-scalar base — numpy's power either way -/
+theorem power_agrees {T : Lib} (h : Agree T NP) (a b : Arg) : power T a b = npPower a b := by
+  cases a <;> simp [power, npPower, h.pow, Arg.lift]
+
+example : power NP (.tn ⟨[3], [1, 2, 3]⟩) (.py 2) = some ⟨[3], [1, 4, 9]⟩ := by decide
+
+/-- the divide reduce loop `result = rows[0]; for x in rows[1:]: result = result / x`
+    (whatever the element division `dv` computes — float32 or float64) is the left fold numpy's
+    divide.reduce performs along axis 0 -/
+def divLoop {α : Type} (dv : α → α → α) : α → List α → α
+  | acc, [] => acc
+  | acc, x :: xs => divLoop dv (dv acc x) xs
+
+theorem divide_loop_is_fold {α : Type} (dv : α → α → α) (r : α) (rs : List α) :
+    divLoop dv r rs = rs.foldl dv r := by
+  induction rs generalizing r with
+  | nil => rfl
+  | cons x xs ih => simp [divLoop, ih]
+
+/-! ## programs -/
+
+/-- every guarded provider call of the torch facade equals the numpy provider's -/
+theorem provider_agrees {T : Lib} (h : Agree T NP) : (torchP T).guard = numpyP.guard := by
+  have hu : facadeUfunc T = npUfunc := by funext op a b; exact facade_ufunc_agrees h op a b
+  have hf : floorToInt T = npFloor := by funext a; exact floor_agrees h a
+  have hp : power T = npPower := by funext a b; exact power_agrees h a b
+  have hneg : T.neg = NP.neg := funext h.neg
+  have hstack : T.stack = NP.stack := funext h.stack
+  have hrow : T.row = NP.row := by funext R i; exact h.row R i
+  have hflip : T.flip0 = NP.flip0 := funext h.flip0
+  have hslice : T.slice0 = NP.slice0 := by funext R i j; exact h.slice0 R i j
+  have hcat : T.cat0 = NP.cat0 := by funext A B; exact h.cat0 A B
+  have htile : T.tile0 = NP.tile0 := by funext R k; exact h.tile0 R k
+  simp only [Provider.guard, torchP, numpyP, hu, hf, hp, hneg, hstack, hrow, hflip, hslice, hcat, htile]
+  congr 1
+  · funext op R
+    by_cases hw : R.wf = true
+    · simp [hw, facade_reduce_agrees h op R hw]
+    · simp [hw]
+  · funext op R
+    by_cases hne : R.rows = []
+    · simp [hne]
+    by_cases hop : op = .add ∨ op = .sub ∨ op = .mul
+    · simp [facade_accumulate_agrees h op R hop hne]
+    · have : facadeAccumulate T op R = none ∧ npAccumulate op R = none := by
+        cases op <;> simp_all [facadeAccumulate, npAccumulate, AOp.arith]
+      simp [this.1, this.2]
+
+/-- a program of the numeric core grammar denotes the same value, shape and integer/real
+    kind under the torch facade and under numpy, for every environment (the denotation
+    reaches a provider only through its guarded calls, so this is `provider_agrees` lifted
+    through every construct of the grammar at once) -/
+theorem program_agrees {T : Lib} (h : Agree T NP) (e : Expr) (env : List V) :
+    den (torchP T) e env = den numpyP e env := by
+  simp only [den, provider_agrees h]
+
+example : den (torchP NP) (.over .sub (.var 0)) [.tn ⟨[2, 2], [1, 2, 3, 4]⟩]
+    = .ok (.tn ⟨[2], [-2, -2]⟩) := by decide
+
+example : den numpyP (.each (.dy .add (.var 3) (.lit 1)) (.scan .add (.var 0))) [.tn ⟨[3], [1, 2, 3]⟩, .py 0, .py 0]
+    = .ok (.tn ⟨[3], [2, 4, 7]⟩) := by decide
+
+/-! ## the pinned tree (before the fix commits) violates the property: witnesses -/
+
+/-- Over with minus on `[[1 2] [3 4]]`: `a[0] − torch.sum(a[1:])` gives `[-6 -5]`, numpy `[-2 -2]` -/
+theorem pinned_reduce_sub_disagrees :
+    facadeReducePinned NP .sub ⟨[2], [[1, 2], [3, 4]]⟩ = some ⟨[2], [-6, -5]⟩ ∧
+    npReduce .sub ⟨[2], [[1, 2], [3, 4]]⟩ = some ⟨[2], [-2, -2]⟩ := by decide
+
+/-- `+/[[1 2] [3 4]]`: `torch.sum(a)` gives `10`, numpy `[4 6]` -/
+theorem pinned_reduce_add_disagrees :
+    facadeReducePinned NP .add ⟨[2], [[1, 2], [3, 4]]⟩ = some (.scalar 10) ∧
+    npReduce .add ⟨[2], [[1, 2], [3, 4]]⟩ = some ⟨[2], [4, 6]⟩ := by decide
+
+theorem foldl_singletons (op : EOp) (f : Int → Int → Int) (hf : ∀ a b, op.ap a b = f a b)
+    (rows : List (List Int)) (hr : ∀ r ∈ rows, r.length = 1) (acc : Int) :
+    foldRows op [acc] rows = [rows.flatten.foldl f acc] := by
+  induction rows generalizing acc with
+  | nil => rfl
+  | cons r rs ih =>
+    have h1 := hr r (by simp)
+    match r, h1 with
+    | [x], _ =>
+      simp only [foldRows, List.foldl_cons, vop, List.zipWith_cons_cons, List.zipWith_nil_right,
+        List.flatten_cons, List.singleton_append] at ih ⊢
+      rw [ih (fun r hr' => hr r (by simp [hr'])), hf]
+
+/-- on vectors (rank 1) the pinned reduce was right: summing all the remaining elements is
+    summing along axis 0 -/
+theorem pinned_reduce_rank1_partial {T : Lib} (h : Agree T NP) (R : Rows) (hw : R.wf = true)
+    (h1 : R.inner = []) (op : AOp) (hop : op = .add ∨ op = .sub) :
+    facadeReducePinned T op R = npReduce op R := by
+  obtain ⟨inner, rows⟩ := R
+  simp only at h1
+  subst h1
+  have hr : ∀ r ∈ rows, r.length = 1 := by
+    intro r hr
+    simp [Rows.wf, prodN] at hw
+    exact hw r hr
+  rcases hop with rfl | rfl
+  · simp only [facadeReducePinned, npReduce, h.sumAll, NP_sumAll, prodN, Flat.scalar, List.replicate_one]
+    rw [foldl_singletons .add (· + ·) (fun _ _ => rfl) rows hr 0]
+  · cases rows with
+    | nil => simp [facadeReducePinned, npReduce, h.row, NP_row]
+    | cons r rs =>
+      have h0 := hr r (by simp)
+      match r, h0 with
+      | [x], _ =>
+        have hrs : ∀ r ∈ rs, r.length = 1 := fun r hr' => hr r (by simp [hr'])
+        simp only [facadeReducePinned, npReduce, h.row, h.ew, h.sumAll, h.tail, NP_row, NP_ew, NP_sumAll,
+          NP_tail, List.getElem?_cons_zero, Option.map_some, Option.bind_some, List.tail_cons,
+          ewWith, Flat.scalar, if_true, List.zipWith_cons_cons, List.zipWith_nil_right]
+        have h2 := sub_foldAdd rs [0] [x]
+        rw [foldl_singletons .add (· + ·) (fun _ _ => rfl) rs hrs 0] at h2
+        simp only [vop, List.zipWith_cons_cons, List.zipWith_nil_right, EOp.ap, Int.sub_zero] at h2
+        simp only [EOp.ap]
+        rw [h2]
+
+example : facadeReducePinned NP .sub ⟨[], [[5], [1], [2]]⟩ = some ⟨[], [2]⟩ := by decide
+
+/-- `_16777217`: `floor(a.float())` rounds to float32 and gives 16777216 -/
+theorem pinned_floor_disagrees :
+    floorToIntPinned NP (.py 16777217) = some (.scalar 16777216) ∧
+    npFloor (.py 16777217) = some (.scalar 16777217) := by decide
+
+/-- below 2^24 the pinned floor was right -/
+theorem pinned_floor_partial {T : Lib} (h : Agree T NP) (n : Int) (hn : n.natAbs < 2 ^ 24) :
+    floorToIntPinned T (.py n) = npFloor (.py n) := by
+  simp [floorToIntPinned, npFloor, h.floorF32, NP_floorF32, Arg.lift, Flat.scalar, f32round, hn]
+
+example : (5 : Int).natAbs < 2 ^ 24 := by decide
+
+/-- known finding (not repaired): `%\` of a single integer row keeps the integer kind on
+    torch and is real on numpy; with two or more rows, or a real operand, the kinds agree -/
+theorem scan_divide_single_row_kind_differs :
+    facadeScanDivKind 1 .int ≠ npScanDivKind 1 .int ∧
+    (∀ n k, n ≠ 1 ∨ k = .real → facadeScanDivKind n k = npScanDivKind n k) := by
+  refine ⟨by decide, ?_⟩
+  intro n k hk
+  rcases hk with hn | rfl
+  · simp [facadeScanDivKind, npScanDivKind, hn]
+  · simp [facadeScanDivKind, npScanDivKind]
+
+/-! ## every compilable program is accepted by both backends -/
+
+open Klong.Generated.C08
+
+/-- the IR of klongpy/compiler.py (`_ast_to_ir`) -/
+inductive IR
+  | literal
+  | var
+  | binop (op : String) (l r : IR)
+  | cmp (op : String) (l r : IR)
+  | negate (c : IR)
+  | reduce (op : String) (a : IR)
+  | scan (op : String) (a : IR)
+
+/-- what `_ast_to_ir` can return: operators drawn from the compiler's own sets -/
+def Emittable : IR → Prop
+  | .literal => True
+  | .var => True
+  | .binop op l r => op ∈ compilerArith ∧ Emittable l ∧ Emittable r
+  | .cmp op l r => op ∈ compilerCmp ∧ Emittable l ∧ Emittable r
+  | .negate c => Emittable c
+  | .reduce op a => op ∈ compilerReduceScan ∧ Emittable a
+  | .scan op a => op ∈ compilerReduceScan ∧ Emittable a
+
+inductive Outcome
+  | code        -- a Python source string: compile_expr_ir returns a callable
+  | fallback    -- `_ir_to_source` returns None: compile_expr_ir returns None, the interpreter runs
+  | raises      -- KeyError / unhandled node: the backend does not accept the program
+deriving DecidableEq, Repr
+
+structure Tables where
+  kinds : List String
+  binop : List String
+  cmp : List String
+  reduce : List String
+  scan : List String
+  missingIsNone : Bool
+  defaultIsNone : Bool
+
+def numpyTables : Tables := ⟨numpyKinds, numpyBinop, numpyCmp, numpyReduce, numpyScan, numpyMissingIsNone, numpyDefaultIsNone⟩
+def torchTables : Tables := ⟨torchKinds, torchBinop, torchCmp, torchReduce, torchScan, torchMissingIsNone, torchDefaultIsNone⟩
+
+def Outcome.seq : Outcome → Outcome → Outcome
+  | .raises, _ => .raises
+  | .fallback, _ => .fallback        -- `if l is None or r is None: return None` (l is evaluated first)
+  | .code, o => o
+
+def lookup (t : Tables) (tbl : List String) (op : String) : Outcome :=
+  if op ∈ tbl then .code else if t.missingIsNone then .fallback else .raises
+
+def unhandled (t : Tables) : Outcome := if t.defaultIsNone then .fallback else .raises
+
+/-- `_ir_to_source` of one backend, as far as acceptance goes -/
+def gen (t : Tables) : IR → Outcome
+  | .literal => if "literal" ∈ t.kinds then .code else unhandled t
+  | .var => if "var" ∈ t.kinds then .code else unhandled t
+  | .binop op l r =>
+    if "binop" ∈ t.kinds then
+      match (gen t l).seq (gen t r) with
+      | .code => lookup t t.binop op
+      | o => o
+    else unhandled t
+  | .cmp op l r =>
+    if "cmp" ∈ t.kinds then
+      match (gen t l).seq (gen t r) with
+      | .code => lookup t t.cmp op
+      | o => o
+    else unhandled t
+  | .negate c => if "negate" ∈ t.kinds then gen t c else unhandled t
+  | .reduce op a =>
+    if "reduce" ∈ t.kinds then
+      match gen t a with
+      | .code => lookup t t.reduce op
+      | o => o
+    else unhandled t
+  | .scan op a =>
+    if "scan" ∈ t.kinds then
+      match gen t a with
+      | .code => lookup t t.scan op
+      | o => o
+    else unhandled t
+
+/-- facts about the regenerated tables, decided by the kernel on every run -/
+theorem tables_facts :
+    (compilerKinds.all (fun k => k ∈ torchKinds ∧ k ∈ numpyKinds) = true) ∧
+    (compilerArith.all (fun o => o ∈ torchBinop) = true) ∧
+    (compilerCmp.all (fun o => o ∈ torchCmp) = true) ∧
+    (compilerReduceScan.all (fun o => o ∈ torchReduce ∧ o ∈ torchScan) = true) ∧
+    numpyMissingIsNone = true ∧ numpyDefaultIsNone = true ∧
+    torchMissingIsNone = true ∧ torchDefaultIsNone = true ∧
+    (["literal", "var", "binop", "cmp", "negate", "reduce", "scan"].all (fun k => k ∈ compilerKinds) = true) := by
+  decide
+
+theorem never_raises (t : Tables) (hm : t.missingIsNone = true) (hd : t.defaultIsNone = true) (ir : IR) :
+    gen t ir ≠ .raises := by
+  have hl : ∀ tbl op, lookup t tbl op ≠ .raises := by
+    intro tbl op; unfold lookup; split <;> simp
+  have hu : unhandled t ≠ .raises := by simp [unhandled, hd]
+  induction ir with
+  | literal => unfold gen; split <;> simp [hu]
+  | var => unfold gen; split <;> simp [hu]
+  | binop op l r ihl ihr =>
+    unfold gen; split
+    · cases hgl : gen t l <;> cases hgr : gen t r <;> simp_all [Outcome.seq]
+    · exact hu
+  | cmp op l r ihl ihr =>
+    unfold gen; split
+    · cases hgl : gen t l <;> cases hgr : gen t r <;> simp_all [Outcome.seq]
+    · exact hu
+  | negate c ih => unfold gen; split <;> simp_all
+  | reduce op a ih =>
+    unfold gen; split
+    · cases hga : gen t a <;> simp_all
+    · exact hu
+  | scan op a ih =>
+    unfold gen; split
+    · cases hga : gen t a <;> simp_all
+    · exact hu
+
+/-- every program built only from operations the expression compiler handles is accepted by
+    both backends: neither `_ir_to_source` can raise on an emitted IR — an operator missing from
+    a table (numpy has no `|\` `&\`) makes it return None, i.e. the interpreter path -/
+theorem compilable_accepted_by_both (ir : IR) (_he : Emittable ir) :
+    gen numpyTables ir ≠ .raises ∧ gen torchTables ir ≠ .raises := by
+  have hf := tables_facts
+  exact ⟨never_raises numpyTables hf.2.2.2.2.1 hf.2.2.2.2.2.1 ir,
+         never_raises torchTables hf.2.2.2.2.2.2.1 hf.2.2.2.2.2.2.2.1 ir⟩
+
+/-- the torch table is complete: it generates code for every IR the compiler can emit -/
+theorem torch_generates_code_for_every_emittable (ir : IR) (he : Emittable ir) :
+    gen torchTables ir = .code := by
+  have hf := tables_facts
+  have hk : ∀ k ∈ ["literal", "var", "binop", "cmp", "negate", "reduce", "scan"], k ∈ torchKinds := by
+    intro k hk
+    have h1 := List.all_eq_true.mp hf.2.2.2.2.2.2.2.2 k hk
+    have h2 := List.all_eq_true.mp hf.1 k (by simpa using h1)
+    simp at h2; exact h2.1
+  have hb : ∀ o ∈ compilerArith, o ∈ torchBinop := fun o ho => by
+    simpa using List.all_eq_true.mp hf.2.1 o ho
+  have hc : ∀ o ∈ compilerCmp, o ∈ torchCmp := fun o ho => by
+    simpa using List.all_eq_true.mp hf.2.2.1 o ho
+  have hrs : ∀ o ∈ compilerReduceScan, o ∈ torchReduce ∧ o ∈ torchScan := fun o ho => by
+    simpa using List.all_eq_true.mp hf.2.2.2.1 o ho
+  induction ir with
+  | literal => simp [gen, torchTables, hk "literal" (by simp)]
+  | var => simp [gen, torchTables, hk "var" (by simp)]
+  | binop op l r ihl ihr =>
+    obtain ⟨ho, hl, hr⟩ := he
+    simp [gen, torchTables, hk "binop" (by simp)]
+    simp only [torchTables] at ihl ihr
+    simp [ihl hl, ihr hr, Outcome.seq, lookup, hb op ho]
+  | cmp op l r ihl ihr =>
+    obtain ⟨ho, hl, hr⟩ := he
+    simp [gen, torchTables, hk "cmp" (by simp)]
+    simp only [torchTables] at ihl ihr
+    simp [ihl hl, ihr hr, Outcome.seq, lookup, hc op ho]
+  | negate c ih =>
+    simp [gen, torchTables, hk "negate" (by simp)]
+    simp only [torchTables] at ih
+    exact ih he
+  | reduce op a ih =>
+    obtain ⟨ho, ha⟩ := he
+    simp [gen, torchTables, hk "reduce" (by simp)]
+    simp only [torchTables] at ih
+    simp [ih ha, lookup, (hrs op ho).1]
+  | scan op a ih =>
+    obtain ⟨ho, ha⟩ := he
+    simp [gen, torchTables, hk "scan" (by simp)]
+    simp only [torchTables] at ih
+    simp [ih ha, lookup, (hrs op ho).2]
+
+example : Emittable (.scan "|" (.binop "+" .var .literal)) := by
+  simp [Emittable, compilerArith, compilerReduceScan]
+
+example : gen numpyTables (.scan "|" .var) = .fallback ∧ gen torchTables (.scan "|" .var) = .code := by decide
+
 end Klong.C08
